@@ -23,6 +23,8 @@ func ByNames(names []string) []Script {
 			out = append(out, &OLVM{})
 		case "stakingb":
 			out = append(out, &Staking{Boundary: true})
+		case "ons":
+			out = append(out, &ONS{Tag: "o"})
 		}
 	}
 	return out
